@@ -242,10 +242,17 @@ def fmt_value(E, f, trait, x):
             items = int_to_decimal(E, v)
             if f.flags is not None and f.flags & (1 << 21) and not (items[0].conc() and items[0].v == 45):
                 items = [U8(43)] + items
-        elif trait == 'LowerHex':
-            items = int_to_hex(E, v)
-        elif trait == 'UpperHex':
-            items = int_to_hex(E, v, True)
+        elif trait in ('LowerHex', 'UpperHex'):
+            nd = WIDTH[v.t] // 4
+            if not v.conc() and f.width is not None and f.width >= nd and f.flags is not None and f.flags & (1 << 24):
+                # zero-padded to at least the full width: all nibbles, no fork on the magnitude
+                base = 55 if trait == 'UpperHex' else 87
+                items = []
+                for k in range(nd - 1, -1, -1):
+                    nib8 = z3.ZeroExt(4, z3.Extract(3, 0, z3.LShR(v.v, 4 * k)))
+                    items.append(from_z('u8', z3.If(z3.ULT(nib8, 10), nib8 + 48, nib8 + base)))
+            else:
+                items = int_to_hex(E, v, trait == 'UpperHex')
         else:
             raise ModelGap('int ' + trait)
         f.write(E, pad(items, len(items), f.width, f.flags, numeric=True, default_right=True))
